@@ -24,7 +24,8 @@ deadlines, edits of the caller's request.  The log lists entries most recent fir
 The comparison of the exhaustion test (`retransmit >= maxRetransmit`) and the addend of the
 retransmission test (`retransmit + 1`) are regenerated from the AST; the proofs in `Lemmas/Retransmit`
 (`lt_of_not_exhausted`, `spacing_of_due`) reduce with these generated values and stop checking if the code
-changes them.
+changes them.  The theorems about the *full* window of the last copy (defect F30) live in `Props/C06Window.lean`:
+they need the regenerated `exhaustionWaitsLastTimeout`, and on a tree without that conjunct only they stop checking.
 -/
 namespace CoapVerif.Props.C06
 open CoapVerif CoapVerif.Model.Retransmit CoapVerif.Lemmas.Retransmit CoapVerif.Generated.Retransmit
